@@ -11,6 +11,7 @@ const char* const BUS_IFACE = "org.freedesktop.DBus";
 std::string Exp::show() const {
   static const char* tn[] = {"?", "call", "return", "error", "signal"};
   std::string s = type <= 4 ? tn[type] : "?";
+  if (full) s += " (forwarded, serial=" + std::to_string(whole.serial) + ")";
   s += " from=" + sender + " to=" + (check_dest ? dest : "*");
   if (!member.empty()) s += " " + iface + "." + member;
   if (!errname.empty()) s += " err=" + errname;
@@ -21,6 +22,17 @@ std::string Exp::show() const {
 }
 
 std::string frame_vs_exp(const Msg& g, const Exp& e) {
+  if (e.full) {
+    const Msg& w = e.whole;
+    if (g.type != w.type) return "type";
+    if (g.flags != w.flags) return "flags";
+    if (g.serial != w.serial) return "serial " + std::to_string(g.serial) + " expected " + std::to_string(w.serial);
+    if (g.fields.size() != w.fields.size()) return "number of header fields " + std::to_string(g.fields.size()) + " expected " + std::to_string(w.fields.size());
+    for (auto& f : w.fields) { const Value* v = g.field(f.code); if (!v) return "header field " + std::to_string(f.code) + " missing"; if (!(*v == f.v)) return "header field " + std::to_string(f.code) + " = " + v->show(80) + " expected " + f.v.show(80); }
+    if (g.body.size() != w.body.size()) return "body arity";
+    for (size_t i = 0; i < w.body.size(); i++) if (!(g.body[i] == w.body[i])) return "body value " + std::to_string(i);
+    return "";
+  }
   if (g.type != e.type) return "type";
   if (g.fstr(F_SENDER) != e.sender) return "sender '" + g.fstr(F_SENDER) + "' expected '" + e.sender + "'";
   if (e.check_dest && g.fstr(F_DESTINATION) != e.dest) return "destination '" + g.fstr(F_DESTINATION) + "' expected '" + e.dest + "'";
@@ -38,19 +50,60 @@ std::string frame_vs_exp(const Msg& g, const Exp& e) {
   return "";
 }
 
+Exp exp_forward(const Msg& stamped) { Exp e; e.full = true; e.whole = stamped; e.type = stamped.type; e.sender = stamped.fstr(F_SENDER); e.dest = stamped.fstr(F_DESTINATION); e.iface = stamped.fstr(F_INTERFACE); e.member = stamped.fstr(F_MEMBER); e.body = stamped.body; return e; }
 Exp exp_reply(const std::string& dest, uint32_t rs, const std::vector<Value>& body) { Exp e; e.type = T_RETURN; e.sender = BUS_NAME; e.dest = dest; e.reply_serial = rs; e.body = body; return e; }
 Exp exp_error(const std::string& dest, uint32_t rs, const std::string& name) { Exp e; e.type = T_ERROR; e.sender = BUS_NAME; e.dest = dest; e.reply_serial = rs; e.errname = name; e.any_body = true; return e; }
 Exp exp_bus_signal(const std::string& member, const std::string& dest, const std::vector<Value>& body) { Exp e; e.type = T_SIGNAL; e.sender = BUS_NAME; e.dest = dest; e.path = BUS_PATH; e.iface = BUS_IFACE; e.member = member; e.body = body; return e; }
 
 static Value S(const std::string& s) { return Value::str('s', s); }
 
-void BusModel::noc(const std::string& name, const std::string& oldo, const std::string& newo, Out& out) {
-  // [S] NameOwnerChanged is a broadcast from the bus; it reaches connections with a matching rule
+MatchCtx BusModel::ctx_for(int sender_conn, int addressed) const {
+  MatchCtx cx;
+  cx.sender_unique = sender_conn < 0 ? std::string(BUS_NAME) : conns[sender_conn].unique;
+  cx.addressed_unique = addressed < 0 ? std::string() : conns[addressed].unique;
+  const BusModel* self = this;
+  cx.owner_of = [self](const std::string& n) { return n == BUS_NAME ? std::string(BUS_NAME) : self->owner_unique(n); };
+  return cx;
+}
+
+std::vector<int> BusModel::rule_recipients(const Msg& m, int sender_conn, int addressed) const {
+  std::vector<int> r;
+  MatchCtx cx = ctx_for(sender_conn, addressed);
   for (size_t i = 0; i < conns.size(); i++) {
     const MConn& c = conns[i];
-    if (!c.alive || !c.registered || c.monitor) continue;
-    if (c.noc_all || c.noc_arg0.count(name)) out[(int)i].push_back(exp_bus_signal("NameOwnerChanged", "", {S(name), S(oldo), S(newo)}));
+    if ((int)i == addressed || !c.alive || !c.registered || c.monitor) continue;
+    for (auto& rule : c.rules) if (rule_matches(rule, m, cx)) { r.push_back((int)i); break; }
   }
+  return r;
+}
+
+Msg BusModel::stamp(const Msg& m, int sender_conn) const {
+  Msg s = m;
+  for (size_t i = 0; i < s.fields.size();) if (s.fields[i].code > 10 || s.fields[i].code == F_CONTAINER_INSTANCE || s.fields[i].code == F_SENDER) s.fields.erase(s.fields.begin() + i); else i++;
+  s.set_str(F_SENDER, 's', sender_conn < 0 ? std::string(BUS_NAME) : conns[sender_conn].unique);
+  return s;
+}
+
+bool BusModel::remove_match(int c, const MatchRule& r) {
+  auto& v = conns[c].rules;
+  for (size_t i = v.size(); i > 0; i--) if (v[i - 1] == r) { v.erase(v.begin() + (i - 1)); return true; }
+  return false;
+}
+
+void BusModel::bus_signal(const std::string& member, const std::string& dest, const std::vector<Value>& body, Out& out) {
+  Msg m; m.type = T_SIGNAL;
+  m.set_str(F_PATH, 'o', BUS_PATH); m.set_str(F_INTERFACE, 's', BUS_IFACE); m.set_str(F_MEMBER, 's', member);
+  m.set_str(F_SENDER, 's', BUS_NAME);
+  if (!dest.empty()) m.set_str(F_DESTINATION, 's', dest);
+  m.body = body;
+  int addressed = dest.empty() ? -1 : conn_by_unique(dest);
+  if (addressed >= 0) out[addressed].push_back(exp_bus_signal(member, dest, body));
+  for (int r : rule_recipients(m, -1, addressed)) out[r].push_back(exp_bus_signal(member, dest, body));
+}
+
+void BusModel::noc(const std::string& name, const std::string& oldo, const std::string& newo, Out& out) {
+  // [S] NameOwnerChanged is a broadcast from the bus; it reaches connections with a matching rule
+  bus_signal("NameOwnerChanged", "", {S(name), S(oldo), S(newo)}, out);
 }
 
 void BusModel::hello(int c, const std::string& unique, uint32_t serial, Out& out) {
@@ -58,7 +111,7 @@ void BusModel::hello(int c, const std::string& unique, uint32_t serial, Out& out
   conns[c].unique = unique;
   noc(unique, "", unique, out);
   out[c].push_back(exp_reply(unique, serial, {S(unique)}));
-  out[c].push_back(exp_bus_signal("NameAcquired", unique, {S(unique)}));
+  bus_signal("NameAcquired", unique, {S(unique)}, out);
 }
 
 int BusModel::names_held(int c) const {
@@ -79,7 +132,7 @@ uint32_t BusModel::request_name(int c, const std::string& name, uint32_t flags, 
   if (Q.empty()) {
     Q.push_back({c, A, D});
     noc(name, "", me, out);
-    out[c].push_back(exp_bus_signal("NameAcquired", me, {S(name)}));
+    bus_signal("NameAcquired", me, {S(name)}, out);
     code = RN_PRIMARY;
   } else if (Q[0].conn == c) {
     Q[0].allow_repl = A; Q[0].dnq = D;                                                                   // [S bullet 1]
@@ -89,9 +142,9 @@ uint32_t BusModel::request_name(int c, const std::string& name, uint32_t flags, 
     for (size_t i = 1; i < Q.size(); i++) if (Q[i].conn == c) { Q.erase(Q.begin() + i); break; }
     Q[0] = {c, A, D};
     if (!old.dnq) Q.insert(Q.begin() + 1, old);                                                          // [S bullet 5]
-    out[old.conn].push_back(exp_bus_signal("NameLost", conns[old.conn].unique, {S(name)}));
+    bus_signal("NameLost", conns[old.conn].unique, {S(name)}, out);
     noc(name, conns[old.conn].unique, me, out);
-    out[c].push_back(exp_bus_signal("NameAcquired", me, {S(name)}));
+    bus_signal("NameAcquired", me, {S(name)}, out);
     code = RN_PRIMARY;
   } else {
     size_t idx = Q.size();
@@ -131,10 +184,10 @@ void BusModel::remove_owner_entry(const std::string& name, int c, Out& out, bool
   if (idx == Q.size()) return;
   if (idx > 0) { Q.erase(Q.begin() + idx); return; }   // queued, not primary: silent
   Q.erase(Q.begin());
-  if (send_lost_to_c) out[c].push_back(exp_bus_signal("NameLost", conns[c].unique, {S(name)}));
+  if (send_lost_to_c) bus_signal("NameLost", conns[c].unique, {S(name)}, out);
   std::string next = Q.empty() ? "" : conns[Q[0].conn].unique;
   noc(name, conns[c].unique, next, out);
-  if (!Q.empty()) out[Q[0].conn].push_back(exp_bus_signal("NameAcquired", next, {S(name)}));
+  if (!Q.empty()) bus_signal("NameAcquired", next, {S(name)}, out);
   if (Q.empty()) q.erase(name);
 }
 
@@ -146,7 +199,11 @@ void BusModel::disconnect(int c, Out& out) {
     for (auto& kv : q) for (auto& o : kv.second) if (o.conn == c) names.push_back(kv.first);
     for (auto& n : names) remove_owner_entry(n, c, out, false);
     noc(conns[c].unique, conns[c].unique, "", out);   // [D] unique name released last
+    // [D bus_matchmaker_disconnected] rules of other connections that name the departed unique name as sender or
+    // destination can never match again (unique names are not reused); the bus drops them.
+    for (auto& o : conns) for (size_t k = 0; k < o.rules.size();) { const MatchRule& r = o.rules[k]; if ((r.has_sender && r.sender == conns[c].unique) || (r.has_dest && r.dest == conns[c].unique)) o.rules.erase(o.rules.begin() + k); else k++; }
   }
+  conns[c].rules.clear();
   conns[c].registered = false;
   out.erase(c);
 }
